@@ -54,8 +54,10 @@ def _shard(args):
 def trace_specs(ctx, what, rounds, base=0):
     """(trace id, program, variant, seed, what) for every corpus program x layout variant, `rounds` times with different
     seeds (each round draws other option sets / entry points / slices / texts)."""
-    from corpus.programs import PROGRAMS
+    from corpus.programs import PROGRAMS as corpus
     from harness import layouts
+    from harness.c07_programs import EXTRA
+    PROGRAMS = list(corpus) + EXTRA
     rng = random.Random(ctx.seed * 7919 + 31 + len(what))
     specs = []
     tid = base
@@ -68,7 +70,6 @@ def trace_specs(ctx, what, rounds, base=0):
 
 
 def generate(specs, conf, nproc=14):
-    nproc = min(nproc, 6) if len(specs) <= 700 and conf.get("cases", 0) < 100 else nproc
     nshards = max(1, min(nproc, len(specs) // 4 or 1))
     order = list(specs)
     random.Random(12345).shuffle(order)  # balance program sizes across shards (deterministic)
